@@ -28,6 +28,7 @@ def plan(tier, seed):
     for p, c in ladder:
         specs.append({'part': 'ladder', 'p': p, 'c': c})
     specs.append({'part': 'sizing', 'n': 3000 if tier == 'quick' else 60000})
+    specs.append({'part': 'big_sizing', 'n': 2 if tier == 'quick' else 8})
     return specs
 
 
@@ -88,6 +89,27 @@ def run_shard(spec, ctx):
         if len(ids) != want or len(set(ids)) != want or want != (N(c) // N(p) if p >= 0 else N(c)):
             ctx.fail('num_children_vs_len', {'p': p, 'c': c, 'cell': x}, got=want, length=len(ids), distinct=len(set(ids)))
         ctx.sample({'pair': [p, c], 'cell': x, 'children': len(ids)})
+    elif spec['part'] == 'big_sizing':
+        # outputs beyond a million cells: the sizing rule, the filling and the hierarchy must still agree
+        for it in range(spec['n']):
+            t = ctx.rnd.choice((10, 10, 11))
+            face = ctx.rnd.choice(a5.cell_to_children(0, 0))
+            x, y = gen.random_cell(ctx.rnd, a5, ctx.rnd.randint(t - 4, t)), gen.random_cell(ctx.rnd, a5, ctx.rnd.randint(t - 3, t))
+            cells = [face, x, y] if it % 2 == 0 else [x, face, y]
+            rs = [a5.get_resolution(c_) for c_ in cells]
+            want = sum(get_num_children(r_, t) for r_ in rs)
+            case = {'cells': cells, 't': t}
+            ctx.case((tuple(cells), t))
+            try:
+                out = a5.uncompact(cells, t)
+            except Exception as e:
+                ctx.fail('sizing_raises', case, exc=repr(e))
+                continue
+            ctx.count('big_outputs')
+            if len(out) != want or 0 in out[-3:] or a5.get_resolution(out[-1]) != t or a5.cell_to_parent(out[-1], rs[-1]) != cells[-1]:
+                ctx.fail('sizing_mismatch', case, uncompact_len=len(out), rule=want)
+            del out
+        ctx.sample(case)
     elif spec['part'] == 'sizing':
         # the child-count rule as it is used to size outputs: len(uncompact(list, t)) == sum of get_num_children == sum of observed
         # lengths, for mixed-resolution lists in which resolutions re-appear, with the hierarchy queried again afterwards
